@@ -57,7 +57,7 @@ def generate(tier, rng):
     num = 500 if tier == "quick" else 8000
     cfg = write_cfg("Gen_C09.cfg", "SPECIFICATION Spec\nCONSTANTS\n  MaxLen = 6\n  D = 12\n  MaxCmd = 2\nCONSTRAINT Bound\nINVARIANT Dump\nCHECK_DEADLOCK FALSE\n")
     for b in tlc_generate("Gen_C09.tla", cfg, "sim", num=num, depth=18, timeout=1500, tag="c09g")[:num * 2]:
-        scen.append({"cfg": b[0], "src": "tlc-sim", "ring": [0, 48, 0, 64][len(scen) % 4], "steps": b[1:]})
+        scen.append({"cfg": b[0], "src": "tlc-sim", "ring": [0, 48, 12, 64][len(scen) % 4], "steps": b[1:]})
     for k in range(300 if tier == "quick" else 4000):
         ln = rng.randint(1, 60)
         lo = rng.randint(0, ln - 1) if rng.random() < 0.5 else 0
@@ -76,11 +76,11 @@ def generate(tier, rng):
                 steps.append({"act": "Callback"})
             else:
                 steps.append({"act": "Cmd", "c": rng.choice(["pause", "resume", "stop", "volume", "panning", "rate", "pause", "resume"]),
-                              "d": rng.choice([0, 1, 2, 3]), "v": rng.choice([0, 1, 2])})
+                              "d": rng.choice([0, 1, 2, 3, 6]), "v": rng.choice([0, 1, 2])})
         steps += [{"act": "Callback"}] * 3
         scen.append({"cfg": {"len": ln, "lo": lo, "hi": hi, "start": start, "ls": ls, "le": le, "open": opn,
                              "rate": rng.choice([0, 128, 256, 256, 512]), "pk": rng.choice([1, 2, 3, 5, 16]), "early": rng.choice([0, 1, 2, 5])},
-                     "src": "random", "ring": rng.choice([0, 48, 64, 0]), "steps": steps})
+                     "src": "random", "ring": rng.choice([0, 48, 64, 12]), "steps": steps})
     return scen
 
 
